@@ -123,13 +123,23 @@ def check_concat(case):
     return v, 'ok' if not v else 'violated', len(exp_cc) > 0
 
 
+ODD_NAMES = ['sales.2020', 'sales_2020', 'report (1)', 'a+b']
+
+
 def check_duplicate(case):
     spec, idx, to_end, bs = case['pkg'], case['idx'], case['to_end'], case['batch']
     st = package(spec)
+    if case.get('odd_names'):
+        # resource names are data, not patterns: names holding regex metacharacters, and look-alike neighbours
+        for r, nm in zip(st.desc['resources'], ODD_NAMES):
+            r['name'] = nm
     names = st.names()
     src = names[idx]
     label = 'duplicate(%r, duplicate_to_end=%s, batch_size=%d) on package %r' % (src, to_end, bs, spec)
-    kind, out = run_step(st, core.dataflows.duplicate(src, duplicate_to_end=to_end, batch_size=bs))
+    if case.get('odd_names'):
+        label += ' whose resources are named %r' % names
+    dup_args = () if case.get('default_source') else (src,)
+    kind, out = run_step(st, core.dataflows.duplicate(*dup_args, duplicate_to_end=to_end, batch_size=bs))
     if kind == 'exc':
         return [('raises/duplicate', '%s raises %s: %s' % (label, core.exc_sig(out), str(out)[:100]))], 'violated', True
     if to_end:
@@ -357,6 +367,10 @@ def cases(tier):
             for idx in range(n):
                 for to_end in (False, True):
                     out.append({'proc': 'duplicate', 'pkg': spec, 'idx': idx, 'to_end': to_end, 'batch': 1000 if (idx + n) % 3 else 1 + (idx % 2)})
+            if n in (2, 4) or (n == 3 and tier == 'thorough'):
+                for idx in range(n):
+                    out.append({'proc': 'duplicate', 'pkg': spec, 'idx': idx, 'to_end': bool(idx % 2), 'batch': 1000, 'odd_names': True})
+                out.append({'proc': 'duplicate', 'pkg': spec, 'idx': 0, 'to_end': False, 'batch': 1000, 'odd_names': True, 'default_source': True})
             if n <= 2 or tier == 'thorough':
                 for idx in range(n):
                     for to_end in (False, True):
